@@ -61,3 +61,13 @@ func (f *FileInfo) Sys() any           { return nil }
 type JSONValue struct{ Doc string }
 
 func (j JSONValue) MarshalJSON() ([]byte, error) { return []byte(j.Doc), nil }
+
+// Deep calls f below depth frames of a helper that lives in a non-test file of
+// another directory (this one) - in both the symbolic and the native build.
+func Deep(depth int, f func()) {
+	if depth > 0 {
+		Deep(depth-1, f)
+		return
+	}
+	f()
+}
